@@ -105,7 +105,7 @@ static int xfrm_get_buffered_data(sqfs_istream_t *strm, const sqfs_u8 **out,
 	if (want > BUFSZ)
 		want = BUFSZ;
 
-	if (xfrm->buffer_used == 0 ||
+	if (xfrm->buffer_offset >= xfrm->buffer_used ||
 	    (xfrm->buffer_used - xfrm->buffer_offset) < want) {
 		int ret = precache(strm);
 		if (ret)
